@@ -8,6 +8,6 @@ trap 'git -C /repo worktree remove --force "$WT" 2>/dev/null' EXIT
 git -C "$WT" checkout -q -- . && git -C "$WT" clean -fdq
 git -C "$WT" checkout -q --detach $(git -C /repo rev-parse HEAD)
 git -C "$WT" apply "$PATCH" || { echo "patch does not apply"; exit 2; }
-out=$(cd /verif && VERIF_REPO="$WT" bin/check $P "${@:4}" 2>&1); rc=$?; echo "$out" | tail -8
+out=$(cd /verif && VERIF_REPO="$WT" bin/check $P "${@:4}" 2>&1); rc=$?; echo "$out" | grep -aE "^VIOLATION|^  # C[0-9][0-9]/|^  # no longer|^check " | cut -c1-400 | head -40
 git -C "$WT" checkout -q -- . && git -C "$WT" clean -fdq
 exit $rc
